@@ -877,6 +877,12 @@ fn exec_ep(ep: usize, data: &[u8], cx: &mut Ctx, io: &mut IterObs) -> EpOut {
                 }
                 Err(e) => out.outcome = err_code(&e),
             }
+            // the checked variant (MIC first, then decryption), with both keys: total as well
+            cx.buf.clear();
+            cx.buf.extend_from_slice(data);
+            if let Ok(d) = DecryptedDataPayload::check_mic_and_decrypt_in_place(&mut cx.buf, &cx.nwk, Some(&cx.app), cx.fcnt) {
+                let _ = touch_decrypted_data(&d);
+            }
         }
         5 => {
             cx.buf.clear();
@@ -887,6 +893,12 @@ fn exec_ep(ep: usize, data: &[u8], cx: &mut Ctx, io: &mut IterObs) -> EpOut {
                     out.outcome = 100;
                 }
                 Err(e) => out.outcome = err_code(&e),
+            }
+            // the checked variant of the same entry point (what a device calls): total as well
+            cx.buf.clear();
+            cx.buf.extend_from_slice(data);
+            if let Ok(j) = DecryptedJoinAcceptPayload::check_mic_and_decrypt_in_place(&mut cx.buf, &cx.app) {
+                touch_decrypted_join_accept(&j, &cx.app, cx.nonce);
             }
         }
         _ => {
